@@ -108,6 +108,14 @@ D = {
  "C12-e": ("Enqueue copies Dependencies through an unsynchronised block allocator (Scheduler.depsBlock)", "Enqueue from >= 2 goroutines with non-empty Dependencies"),
  "C19-e": ("ticker arm: IdleWorkers computed from pending - waiting instead of ongoing", "a state report while a job sits in the ready list and a worker is free"),
  "C05-e": ("Enqueue: non-blocking send, then select between the send and ctx.Done(): a job whose context is done may never reach the loop", "a job enqueued with its own, already cancelled context while the one-slot enqueue channel is occupied; a later job depends on it; Wait with a live context"),
+ "C02-f": ("graph.go reduce(): transitive reduction of job dependencies treats [p, p] as two edges implying each other", "a consumer taking two values from the same multi-output task, no other path to it; >= 2 workers; provider still running"),
+ "C04-f": ("templates: one-line PanicError literal + a `{{- end -}}` that glues it onto a comment line in slice/map element closures with an End hook", "a panic in an element function of a Slice/Map that has SliceEnd/MapEnd"),
+ "C13-f": ("gen.go importName guesses the package name of an unnamed import from the last path element", "unnamed import of .../debug/v2 (package debug) and a generated import of runtime/debug"),
+ "C14-f": ("compile.go: Invoke and Predicate sentinels built by one helper: sentinel k of both kinds is the same type", "one flow with an Invoke(true) task and a predicated task"),
+ "C15-f": ("new template function deref: cff.Results(&X) stores through the raw operand X after Wait instead of a hoisted pointer", "a Results argument &X whose operand has side effects (&slots[next()])"),
+ "C16-f": ("cmd/cff run takes the file path from fset.Position(file.Package).Filename", "a source file with a //line directive before its package clause"),
+ "C17-f": ("templates cached per process behind sync.Once with the first generator's magic token bound", "source-map mode and a second directive file (or an in-package test) processed in the same run"),
+ "C20-f": ("modifier generator's typeID keyed by types.TypeString", "modifier mode; producer and consumer spell one type differently"),
 }
 rows = []
 for sid in sorted(D):
